@@ -180,6 +180,9 @@ fn level_modularities(g: &G, levels: &Levels, weighted: bool, res: Option<f64>, 
     o.obs(75, &[vec![1]], &[]);
     // and: the model's generate_graph produced exactly the list-level aggregation of its edges
     o.obs(76, &[vec![1]], &[]);
+    // and: the bookkeeping invariants (node2com / inner_partition / Stot = degree sums on the edge
+    // multiset) hold at the end of the model's first local-moving phase
+    o.obs(77, &[vec![1]], &[]);
 }
 
 fn do_louv(g: &Arc<G>, t: &mut Toks, o: &mut Out) {
